@@ -77,6 +77,8 @@ def run_met(case):
 
 
 def gen_any(rng, tier='quick', rollover=0.3, min_steps=1, lb_share=0.2):
+    if min_steps <= 1 and rng.random() < 0.08:
+        return M.gen_landuse(rng)
     if rng.random() < lb_share:
         c = M.gen_lb(rng, tier, rollover)
         while len(c['steps']) < min_steps:
@@ -97,6 +99,17 @@ def _year_end_23(c):
 
 def region_of(c):
     """known-defect regions of the met readers (see known_findings/C08|C09|C13|C14.json)"""
+    if c['fmt'] == 'landuse':
+        import struct
+        first = c['steps'][0]['fields']['FLAND'][0]
+        b = struct.pack('>%dI' % min(2, len(first)), *first[:2])
+        if len(first) < 2:
+            b += struct.pack('>I', c['steps'][0]['fields']['FLAND'][1][0])
+        try:
+            b.decode()
+            return 0
+        except UnicodeDecodeError:
+            return 16      # reader decodes the first 8 payload bytes as text to sniff the file style
     if c['fmt'] == 'lateral_boundary':
         return 1 if _year_end_23(c) else 0   # writer derives the end date as YYJJJ + 1 at midnight
     if c['fmt'] == 'wind' and c['nx'] * c['ny'] == 1:
